@@ -22,10 +22,12 @@ def cuts(key, lab, data, tr, cfg, step=1):
     for k in range(0, len(data), step):
         base = data[:k]
         out.append(sp.M(PROP, "C05", key, "%s/cut%d" % (lab, k), base, [i for i in free_all if i < k], budget=30, cfg=cfg))
-    for extra in (1, 2, 3):
+    for extra in (1, 2, 3, 65, 300):
         base = data + b"\x00" * extra
-        out.append(sp.M(PROP, "C05", key, "%s/suffix%d" % (lab, extra), base,
-                        sorted(free_all) + list(range(len(data), len(base))), budget=30, cfg=cfg))
+        sfx = list(range(len(data), len(base)))
+        if extra > 3:
+            sfx = sfx[:1] + sfx[-2:]  # a long surplus: first and last bytes symbolic, the rest zero
+        out.append(sp.M(PROP, "C05", key, "%s/suffix%d" % (lab, extra), base, sorted(free_all) + sfx, budget=30, cfg=cfg))
     return out
 
 
